@@ -22,6 +22,21 @@ def run(tier, seed):
     import re
     twin = lambda t: re.sub(r"\bZ\b", "dto", re.sub(r"\bB\b", "DTO", re.sub(r"\bA\b", "Dto", t)))
     srcs += [("c15case", a, twin(t)) for st, a, t in srcs if st == "c15"]
+    # trait-level repeat templates of instruction names whose kind sets overlap (from / map / from_owned): which template reaches a later
+    # instruction must not depend on the iteration order of the map that holds the open templates
+    from checks import c14
+    rep_all = streams.tlc_cases(ctx, "MC_C14", "MC_C14_tq4", None, seed)
+    if tier == "quick":
+        # the sequences with two open templates of different names in front of a plain instruction are the ones where a lookup order could show:
+        # all of those that have nothing else going on (no stop / skip), a seeded sample of the others
+        import random
+        two_open = lambda c: len(c["ts"]) == 3 and c["ts"][0]["rep"] and c["ts"][1]["rep"] and c["ts"][0]["n"] != c["ts"][1]["n"] and not c["ts"][2]["rep"]
+        plain = lambda c: not any(t["stop"] or t["skip"] for t in c["ts"])
+        hot = [c for c in rep_all if two_open(c) and plain(c)]
+        rest = [c for c in rep_all if not (two_open(c) and plain(c))]
+        random.Random(seed).shuffle(rest)
+        rep_all = hot + rest[:6000]
+    srcs += [("rep", c, c14.t_orig(c)) for c in rep_all]
     inp = [{"id": i, "src": s[2]} for i, s in enumerate(srcs)]
     runs = [[] for _ in inp]
     first = core.expand(inp, "syn1", repeat=2)                 # twice in one process
